@@ -3,6 +3,7 @@ package scen
 import (
 	"bytes"
 	"fmt"
+	"time"
 
 	"github.com/idena-network/idena-go/blockchain/types"
 	"github.com/idena-network/idena-go/common"
@@ -133,9 +134,14 @@ func (l *Ledger) SubmitSome(nodes []*simnode.Node) (submitted, accepted int) {
 func (l *Ledger) Round(nodes []*simnode.Node) *RoundResult {
 	s := l.S
 	s.Tick()
+	l.maybeFastForward(nodes[0])
 	rr := &RoundResult{Prev: nodes[0].Chain.Head}
 	rr.Submitted, rr.Accepted = l.SubmitSome(nodes)
 	el := s.Eligible(nodes)
+	if len(el) == 0 && l.round%4 == 0 && nodes[0].App.State.ValidationPeriod() == 0 {
+		// nobody can propose (e.g. everybody went offline at the epoch change): the operators switch their nodes online again
+		l.BringOnline(nodes)
+	}
 	empty := len(el) == 0 || (l.ForceEmpty1in > 0 && s.T.Choose("round.empty", l.ForceEmpty1in) == l.ForceEmpty1in-1)
 	if empty {
 		n0 := nodes[s.T.Choose("round.emptyby", len(nodes))]
@@ -190,8 +196,18 @@ func (l *Ledger) Round(nodes []*simnode.Node) *RoundResult {
 	return rr
 }
 
-// InsertAll inserts rr's block on every node; pred prefixes violation signatures.
-func (l *Ledger) InsertAll(nodes []*simnode.Node, rr *RoundResult, prop string) {
+// InsertAll inserts rr's block on every node. With strict, a rejection or panic is a
+// violation "<prop>:..."; otherwise it is reported to the caller (ok=false) and counted.
+func (l *Ledger) InsertAll(nodes []*simnode.Node, rr *RoundResult, prop string) bool {
+	return l.insertAll(nodes, rr, prop, true)
+}
+
+// TryInsertAll is InsertAll for checks whose property is not block acceptance.
+func (l *Ledger) TryInsertAll(nodes []*simnode.Node, rr *RoundResult) bool {
+	return l.insertAll(nodes, rr, "", false)
+}
+
+func (l *Ledger) insertAll(nodes []*simnode.Node, rr *RoundResult, prop string, strict bool) bool {
 	s := l.S
 	for _, n := range nodes {
 		if l.OnDeliver != nil && !l.OnDeliver(rr, n) {
@@ -199,12 +215,23 @@ func (l *Ledger) InsertAll(nodes []*simnode.Node, rr *RoundResult, prop string) 
 		}
 		err, pv, st := s.Insert(n, rr.Enc)
 		if pv != nil {
+			if !strict {
+				s.R.Probe("scenario_cut_short:insert-panicked")
+				s.R.Note("insert panicked on node %d h=%d: %v", n.ID, rr.Height, pv)
+				return false
+			}
 			s.R.Violate(prop+":insert-panicked", "node %d block h=%d by node %d: %v\n%s", n.ID, rr.Height, rr.Proposer.ID, pv, st)
 		}
 		if err != nil {
-			s.R.Violate(prop+":honest-block-rejected", "node %d rejected block h=%d (empty=%v) built by node %d: %v", n.ID, rr.Height, rr.Empty, rr.Proposer.ID, err)
+			if !strict {
+				s.R.Probe("scenario_cut_short:honest-block-rejected-by-peer")
+				s.R.Note("node %d rejected block h=%d: %v", n.ID, rr.Height, err)
+				return false
+			}
+			s.R.Violate(prop+":honest-block-rejected", "node %d rejected block h=%d (empty=%v) built by node %d: %v; proposer's state (A) vs this node's (B):%s", n.ID, rr.Height, rr.Empty, rr.Proposer.ID, err, DiffStates(rr.Proposer.LastApplied, n.LastApplied))
 		}
 	}
+	return true
 }
 
 // Certify writes a certificate for rr's block on every node (built before insertion state is gone:
@@ -280,4 +307,20 @@ func (l *Ledger) Usable(rr *RoundResult) bool {
 	}
 	l.S.R.Probe("scenario_cut_short_by_C02_violation:" + rr.SelfPred)
 	return false
+}
+
+// maybeFastForward lets the chain sit idle until shortly before the next validation
+// (a legal history: the next block simply carries a later timestamp).
+func (l *Ledger) maybeFastForward(n *simnode.Node) {
+	s := l.S
+	if n.App.State.ValidationPeriod() != 0 {
+		return
+	}
+	next := n.App.State.NextValidationTime()
+	lead := n.Cfg.Validation.GetFlipLotteryDuration() + 90*time.Second
+	gap := next.Sub(s.W.TrueNow())
+	if gap > lead && gap < 400*24*time.Hour && s.T.Choose("round.fastforward", 4) == 3 {
+		s.W.Advance(gap - lead)
+		s.R.Probe("fast_forward_to_ceremony")
+	}
 }
